@@ -12,10 +12,12 @@ def dictD (op : String) (args : List Nat) : Option String :=
   match op with
   | "dictcreate" => some <| match runP (do
         let ms ← pOpt pNat; let mq ← pOpt pNat; let _threads ← pNat; let _mode ← pNat
-        let lines ← pList (do let _ ← pNats; pList pNats); pure (ms, mq, lines)) args with
-      | some (ms, mq, lines) =>
-        let d := dictCreate lines ms mq
-        ok ([d.freqSum] ++ eList (fun (e : Tok × Nat) => eNats e.1 ++ [e.2]) (sortEntries d.entries))
+        let lines ← pList (do let _ ← pNats; pList pNats)
+        let obs ← pOpt (do let fs ← pNat; let es ← pList (pPair pNats pNat); pure (fs, es))
+        pure (ms, mq, lines, obs)) args with
+      -- relational: the observed dictionary must be an admissible result (ties at the cut are not fixed)
+      | some (ms, mq, lines, some (fs, es)) => if dictAccept lines ms mq es fs then "accept" else "refuse"
+      | some (_, _, _, none) => "refuse create-failed"
       | none => reject
   | "closest" => some <| match runP (do
         let norm ← pBool; let q ← pText; let es ← pList (pPair pText pNat); let obs ← pOpt pNat
